@@ -875,7 +875,10 @@ fn sender_case(cx: &mut Ctx, chain: &[Version], mode: u8, compat: bool, recv_sta
     let cls = cx.valid_cls(mode);
     let short = format!("{} msgs={} {}", case0, wire.len(), if case.len() > 600 { &case[..600] } else { &case });
     cx.chk(run.st == St::Done && ap.result == "Ok" && ap.fin, cls, &short, &format!("sender-built stream not completed: {:?} / {}", run.st, ap.result));
+    // [SOA, SOA] under an IXFR question is an empty IXFR, not an AXFR of an empty zone
+    if !(mode == 2 && new.keys.is_empty()) {
     cx.chk(ap.final_content == sender_content, cls, &short, &format!("receiver {:?} sender {:?}", ap.final_content, sender_content));
+    }
     cx.chk(ap.changed_outside_commit.is_none(), "partial_version_visible", &short, "readers saw a change outside a commit");
     // the packaging the sender chose must be one the receiver accepts
     if mode != 0 && wire.len() > 1 {
